@@ -3,7 +3,7 @@ import numpy as np
 from hypothesis import strategies as st
 
 from vf import gen
-from vf.core import Verdict, lib, maxdev, mk_basis, nfunc
+from vf.core import Verdict, lib, maxdev, mk_basis, nfunc, present_points, case_hash
 from vf.ref import dens, r3
 from vf.run import SubCheck
 
@@ -86,10 +86,12 @@ def threshold_rule(v, what, call, ref, sc, unclipped):
 def judge(case):
     shells = case["shells"]
     pts = np.array(case["points"], dtype=float).reshape(-1, 3)
+    # the array form of the points must not matter (layout, integer grid, float32 grid); the oracle uses the values it denotes
+    pts_lib, pts, form = present_points(pts, int(case_hash({"s": case["shells"], "p": case["points"]}), 16))
     g = np.array(case["gamma"], dtype=float)
     T = None if case.get("transform") is None else np.array(case["transform"], dtype=float)
     dt = case["deriv_type"]
-    v = Verdict(classes=["psd" if case["psd"] else "indefinite", dt])
+    v = Verdict(classes=["psd" if case["psd"] else "indefinite", dt, "points-" + form])
     R = r3.refs(shells)
     bas = mk_basis(shells)
     ncont = sum(s.nfun for s in R)
@@ -102,11 +104,11 @@ def judge(case):
 
     # ---- density and its threshold rule
     rho, rs = dr.evaluate(dens.rho())
-    orb = lib(__import__("gbasis.evals.eval", fromlist=["evaluate_basis"]).evaluate_basis, bas, pts, transform=T)
+    orb = lib(__import__("gbasis.evals.eval", fromlist=["evaluate_basis"]).evaluate_basis, bas, pts_lib, transform=T)
     unclipped = lib(gd.evaluate_density_using_evaluated_orbs, g, orb)
     if _cmp(v, "evaluate_density_using_evaluated_orbs", unclipped, rho, rs):
         return v
-    neg = threshold_rule(v, "evaluate_density", lambda t: gd.evaluate_density(g, bas, pts, threshold=t, **kw), rho, rs, unclipped)
+    neg = threshold_rule(v, "evaluate_density", lambda t: gd.evaluate_density(g, bas, pts_lib, threshold=t, **kw), rho, rs, unclipped)
     if not v.ok:
         return v
     if neg:
@@ -116,7 +118,7 @@ def judge(case):
     m = float(np.min(rho))
     if m >= -0.5e-8 or m <= -1.5e-8:
         try:
-            out = gd.evaluate_density(g, bas, pts, **kw)
+            out = gd.evaluate_density(g, bas, pts_lib, **kw)
             if m <= -1.5e-8:
                 return v.fail(f"evaluate_density returned although the density is {m:.3e} < -threshold (1e-8)")
             if _cmp(v, "evaluate_density", out, np.clip(rho, 0, None), rs):
@@ -130,7 +132,7 @@ def judge(case):
     # ---- derivatives of any order (full Leibniz sum)
     for o in case["orders"]:
         ref, sc = dr.evaluate(dens.rho_deriv(o))
-        got = lib(gd.evaluate_deriv_density, np.array(o), g, bas, pts, deriv_type=dt, **kw)
+        got = lib(gd.evaluate_deriv_density, np.array(o), g, bas, pts_lib, deriv_type=dt, **kw)
         if _cmp(v, f"evaluate_deriv_density order {o} ({dt})", got, ref, sc):
             return v
         if sum(o) >= 3:
@@ -140,23 +142,23 @@ def judge(case):
     o1, o2 = case["orders"][0], case["orders"][-1]
     if dt == "general" or max(o1 + o2) <= 2:
         ref, sc = dr.D(o1, o2)
-        got = lib(gd.evaluate_deriv_reduced_density_matrix, np.array(o1), np.array(o2), g, bas, pts, deriv_type=dt, **kw)
+        got = lib(gd.evaluate_deriv_reduced_density_matrix, np.array(o1), np.array(o2), g, bas, pts_lib, deriv_type=dt, **kw)
         if _cmp(v, f"evaluate_deriv_reduced_density_matrix {o1},{o2}", got, ref, sc):
             return v
 
     # ---- gradient, Laplacian, Hessian
     grad = [dr.evaluate(dens.ddr(dens.rho(), i)) for i in range(3)]
-    got = lib(gd.evaluate_density_gradient, g, bas, pts, deriv_type=dt, **kw)
+    got = lib(gd.evaluate_density_gradient, g, bas, pts_lib, deriv_type=dt, **kw)
     if _cmp(v, "evaluate_density_gradient", got, np.stack([x[0] for x in grad], 1), np.stack([x[1] for x in grad], 1)):
         return v
     lap, ls = dr.evaluate(dens.laplacian())
-    gl = lib(gd.evaluate_density_laplacian, g, bas, pts, deriv_type=dt, **kw)
+    gl = lib(gd.evaluate_density_laplacian, g, bas, pts_lib, deriv_type=dt, **kw)
     if _cmp(v, "evaluate_density_laplacian", gl, lap, ls):
         return v
     hes = [[dr.evaluate(dens.ddr(dens.ddr(dens.rho(), i), j)) for j in range(3)] for i in range(3)]
     hv = np.array([[hes[i][j][0] for j in range(3)] for i in range(3)]).transpose(2, 0, 1)
     hs = np.array([[hes[i][j][1] for j in range(3)] for i in range(3)]).transpose(2, 0, 1)
-    gh = lib(gd.evaluate_density_hessian, g, bas, pts, deriv_type=dt, **kw)
+    gh = lib(gd.evaluate_density_hessian, g, bas, pts_lib, deriv_type=dt, **kw)
     if _cmp(v, "evaluate_density_hessian", gh, hv, hs):
         return v
     d, at = maxdev(gh, np.swapaxes(gh, 1, 2), hs + 1e-300)
@@ -168,10 +170,10 @@ def judge(case):
 
     # ---- kinetic-energy densities
     ked, ks = dr.evaluate(dens.posdef_ked())
-    unc = 0.5 * sum(lib(gd.evaluate_deriv_reduced_density_matrix, np.array(e), np.array(e), g, bas, pts, deriv_type=dt, **kw)
+    unc = 0.5 * sum(lib(gd.evaluate_deriv_reduced_density_matrix, np.array(e), np.array(e), g, bas, pts_lib, deriv_type=dt, **kw)
                     for e in dens.E)
     neg = threshold_rule(v, "evaluate_posdef_kinetic_energy_density",
-                         lambda t: gd.evaluate_posdef_kinetic_energy_density(g, bas, pts, deriv_type=dt, threshold=t, **kw),
+                         lambda t: gd.evaluate_posdef_kinetic_energy_density(g, bas, pts_lib, deriv_type=dt, threshold=t, **kw),
                          ked, ks, unc)
     if not v.ok:
         return v
@@ -183,14 +185,14 @@ def judge(case):
     alpha = int(alpha) if float(alpha).is_integer() else float(alpha)
     if m >= -0.25e-8 or m <= -3e-8:
         try:
-            out = gd.evaluate_posdef_kinetic_energy_density(g, bas, pts, deriv_type=dt, **kw)
+            out = gd.evaluate_posdef_kinetic_energy_density(g, bas, pts_lib, deriv_type=dt, **kw)
             if m <= -3e-8:
                 return v.fail(f"evaluate_posdef_kinetic_energy_density returned although t+ = {m:.3e} < -threshold")
             if _cmp(v, "evaluate_posdef_kinetic_energy_density", out, np.clip(ked, 0, None), ks):
                 return v
             if case["psd"] and np.min(out) < 0:
                 return v.fail("positive-definite kinetic energy density negative for a PSD density matrix")
-            gk = gd.evaluate_general_kinetic_energy_density(g, bas, pts, alpha, deriv_type=dt, **kw)
+            gk = gd.evaluate_general_kinetic_energy_density(g, bas, pts_lib, alpha, deriv_type=dt, **kw)
             if _cmp(v, f"evaluate_general_kinetic_energy_density alpha={alpha}", gk, np.clip(ked, 0, None) + alpha * lap,
                     ks + abs(alpha) * ls):
                 return v
